@@ -8,14 +8,16 @@ import Puan.Model.Prio
 namespace Puan
 namespace Lex
 
-/-- `StingyConfigurator.default_prios`: the `prio` tag where present, else −1, per flattened id -/
+/-- `StingyConfigurator.default_prios`: the `prio` tag where present, else −1, per flattened id.
+    `flatten()` is a nest of `set`s over the children's flattened lists: of several EQUAL sub-propositions (equality ignores
+    the tag) it keeps the one met first, children in id order — the first entry per id of the pre-order list -/
 def defaultPrios (t : P) : List (String × Int) :=
   let l := ((P.sortById (P.subs t)).map (fun p => (p.id, (p.mt.prio.getD (-1)))))
-  -- dict(zip(ids, prios)): last entry per id
   let rec dedup : List (String × Int) → List (String × Int)
     | [] => []
     | [x] => [x]
-    | x :: y :: r => if x.1 = y.1 then dedup (y :: r) else x :: dedup (y :: r)
+    | x :: y :: r => if x.1 = y.1 then dedup (x :: r) else x :: dedup (y :: r)
+  termination_by l => l.length
   dedup l
 
 /-- `_vectors_from_prios` for one priority dictionary: shadow over the rows [defaults, user] -/
